@@ -71,16 +71,10 @@ impl VectorTileLayer {
 		requires old(reader).wf(), old(reader).len < u32::MAX, obeys_key_model::<AbsStr>(), obeys_key_model::<GeoValue>()
 		ensures final(reader).wf(), final(reader).cursor.data@ == old(reader).cursor.data@,
 			r is Ok ==> r.unwrap().property_manager.inv(),
-//@at "while reader.has_remaining()"
-		// ghost history: the key / value records met so far, in file order
-		let ghost mut keys_seen: Seq<AbsStr> = Seq::empty();
-		let ghost mut vals_seen: Seq<GeoValue> = Seq::empty();
 //@loop 1
 			invariant reader.wf(), reader.cursor.data@ == old(reader).cursor.data@, reader.len == old(reader).len, reader.len < u32::MAX,
 				property_manager.inv(),
-				// positional fidelity (MVT 4.4): the tables are exactly the records met so far, in order, duplicates included
-				property_manager.key.list@ == keys_seen, property_manager.val.list@ == vals_seen,
-				keys_seen.len() + vals_seen.len() <= reader.cursor.pos,
+				property_manager.key.list@.len() + property_manager.val.list@.len() <= reader.cursor.pos,
 			decreases reader.len - reader.cursor.pos
 //@loopstart 1
 			let ghost kl0 = property_manager.key.list@;
@@ -94,10 +88,6 @@ impl VectorTileLayer {
 				assert(first == 0x1a ==> property_manager.key.list@.len() == kl0.len() + 1 && property_manager.key.list@.subrange(0, kl0.len() as int) =~= kl0 && property_manager.val.list@ == vl0);
 				assert(first == 0x22 ==> property_manager.val.list@.len() == vl0.len() + 1 && property_manager.val.list@.subrange(0, vl0.len() as int) =~= vl0 && property_manager.key.list@ == kl0);
 			}
-//@after "property_manager.push_key(reader.read_pbf_absstr()?);"
-					proof { keys_seen = keys_seen.push(property_manager.key.list@.last()); }
-//@after "property_manager.push_val( geo_value_read(&mut reader.get_pbf_sub_reader()?)?, );"
-					proof { vals_seen = vals_seen.push(property_manager.val.list@.last()); }
 //@end
 }
 } // verus!
